@@ -309,6 +309,15 @@ def step (st : St) (j : Json) : St × List String :=
       | .err e => "err:" ++ e
       | .panic p => "panic:" ++ p
     (st, [out])
+  | "tokskew" =>
+    -- harness fixture: the stored record's Expiration moved to `ms` before now, entry re-put (full TTL): record expired, entry alive
+    let name := jStr j "token"
+    match st.w.tokens.get t name with
+    | some rec =>
+      let rec' := { rec with expiration := t - jNat j "ms" * 1000000 }
+      ({ st with w := { st.w with tokens := st.w.tokens.put t st.cfg.tokenTtl name rec' } }, ["skewed"])
+    | none => (st, ["absent"])
+  | "onceonly" => (st, ["once-only max-fresh=1"])   -- PutIfAbsent is one atomic step of the model's store
   | "advance" => (st, ["advanced"])   -- time is carried by every operation
   | o => (st, ["bad-op:" ++ o])
 
